@@ -25,7 +25,7 @@ func scenarios(tier string) []engine.Scenario {
 	}
 	// Scenario i runs on worker i mod 16: emitted family by family so that each family (= similar cost)
 	// is spread over all workers.
-	var ks, auto, rd, br, cp, pk, kn, es []engine.Scenario
+	var ks, auto, rd, br, cp, pk, kn, es, md []engine.Scenario
 	for _, ch := range chains(tier) {
 		for _, rt := range []ring.Type{ring.Standard, ring.ConjugateInvariant} {
 			ks = append(ks, ksScenario(rt, 4, ch, bound))
@@ -58,7 +58,16 @@ func scenarios(tier string) []engine.Scenario {
 			kn = append(kn, knownScenario(ring.ConjugateInvariant, 5, ch, sigCIOddLogN61))
 		}
 	}
-	scs := append(auto, ks...)
+	for _, ch := range manyDigitChains() {
+		for opi := range manyDigitOps {
+			md = append(md, manyDigitsScenario(ring.Standard, 4, ch, opi))
+			if tier == "thorough" {
+				md = append(md, manyDigitsScenario(ring.ConjugateInvariant, 4, ch, opi), manyDigitsScenario(ring.Standard, 5, ch, opi))
+			}
+		}
+	}
+	scs := append(md, auto...)
+	scs = append(scs, ks...)
 	scs = append(scs, rd...)
 	scs = append(scs, br...)
 	scs = append(scs, pk...)
@@ -89,6 +98,10 @@ func expect(tier string) []string {
 	}
 	for _, o := range deriveNames {
 		e = append(e, "evalseq-evaluator="+o)
+	}
+	e = append(e, "manydigits=>=20", "manydigits=16..19", "manydigits=8..15", "manydigits=<8")
+	for _, ch := range manyDigitChains() {
+		e = append(e, "manydigits-chain="+ch.Name)
 	}
 	e = append(e, "evalseq-ring=Std", "evalseq-ring=CI", "evalseq-key=galois-added-after-creation", "evalseq-key=rlk-added-after-creation")
 	for _, o := range ksOps {
